@@ -90,6 +90,17 @@ class BaseQPDGate(Instruction):
         # The definition depends on the basis ID: drop any cached one.
         self._definition = None
 
+    @property
+    def label(self) -> str | None:
+        """Label of the gate (part of the definition of a :class:`TwoQubitQPDGate`)."""
+        return self._label
+
+    @label.setter
+    def label(self, name: str | None) -> None:
+        Instruction.label.fset(self, name)
+        # The definition depends on the label: drop any cached one.
+        self._definition = None
+
     def __eq__(self, other):
         """Check equivalence for QPDGate class."""
         return (
